@@ -186,20 +186,36 @@ def rule_populate(ctx, R):
         for e in writes:
             tgt = N(e[3][0])
             val = N(e[3][1])
-            # tgt = unwrap(get_mut(slots, idx))
+            # tgt = unwrap(get_mut(slots, idx))  /  slots[idx]  /  the element an enumerated iterator over `slots` hands out with idx
             idx = None
+            rng_of_idx = None
             if is_call(tgt, "Option::unwrap") and is_call(tgt[2][0], "slice::get_mut") and tgt[2][0][2][0] == ("arg", 2):
                 idx = tgt[2][0][2][1]
+            elif (is_call(tgt, "get_unchecked_mut") or is_call(tgt, "index_mut") or is_call(tgt, "IndexMut>::index_mut")) and len(tgt[2]) == 2 and tgt[2][0] == ("arg", 2):
+                idx = tgt[2][1]
+            elif tgt[0] == "ref" and tgt[1][0] == "index" and tgt[1][1] == ("deref", ("arg", 2)):
+                idx = tgt[1][2]   # slots[idx] (bounds-checked indexing)
+            elif tgt[0] == "vfield" and tgt[2] == "1":
+                ci = chain_item(tgt[1])
+                if ci is not None and ci[1] and ci[0][2] == ("arg", 2):
+                    idx = ("vfield", tgt[1], "0")
+            if idx is not None and idx[0] == "vfield" and idx[2] == "0":
+                ci = chain_item(idx[1])
+                if ci is not None and ci[1] and ci[0][2] == ("arg", 2):
+                    rng_of_idx = (ci[0][0], ci[0][1])
             ok = False
             what = None
             if idx is not None:
-                if idx == end:
+                if strip_epochs(idx) == strip_epochs(end) or (idx[0] == "vfield" and False):
                     what = "last"
                     ok = val[0] == "agg" and dict(val[4]).get("index") == ("agg", "adt", "archetype::slot::SlotIndex", "SlotIndex", (("0", ("const", 4294967295)),), 0)
                 else:
-                    # idx = item of Range(start, len-1)
+                    # idx = item of Range(start, len-1), or of an iterator chain over `slots` covering the same indices
                     item = loop_item(idx)
-                    if item is not None and strip_epochs(item) == strip_epochs(rng):
+                    same_rng = item is not None and strip_epochs(item) == strip_epochs(rng)
+                    if not same_rng and rng_of_idx is not None:
+                        same_rng = strip_epochs(untrim(rng_of_idx[0])) == strip_epochs(start_raw) and strip_epochs(rng_of_idx[1]) == strip_epochs(end)
+                    if same_rng:
                         what = "loop"
                         link = dict(val[4]).get("index") if val[0] == "agg" else None
                         want_next = ("bin", "Add", idx, ("const", 1))
@@ -231,6 +247,50 @@ def _enum_payload(V):
                 x = lv[3][2][0]
                 if is_call(x, "enumerate") and is_call(x[2][0], "iter"):
                     return x[2][0][2][0]
+    return None
+
+
+def chain_range(it):
+    """(start, end, slice) of the indices produced by an iterator expression built from
+    S.iter()/iter_mut() [.enumerate()] [.take(n)] [.skip(m)] ...; None if it is anything else"""
+    if is_call(it, "enumerate"):
+        return chain_range(it[2][0])
+    if is_call(it, "iter_mut") or is_call(it, "iter"):
+        S_ = it[2][0]
+        parts = slice_parts(S_)
+        ln = parts[1] if parts is not None else ("call", "core::slice::<impl [T]>::len", (S_,))
+        return (("const", 0), ln, S_)
+    if is_call(it, "take") and len(it[2]) == 2:
+        r = chain_range(it[2][0])
+        if r is None:
+            return None
+        (s_, e_, S_) = r
+        n_ = it[2][1]
+        # min(e, n): n itself when n is visibly e - k
+        if n_[0] == "bin" and n_[1] == "Sub" and strip_epochs(n_[2]) == strip_epochs(e_):
+            return (s_, n_, S_)
+        return (s_, ("call", "min", (e_, n_)), S_)
+    if is_call(it, "skip") and len(it[2]) == 2:
+        r = chain_range(it[2][0])
+        if r is None:
+            return None
+        (s_, e_, S_) = r
+        m_ = it[2][1]
+        return (m_ if s_ == ("const", 0) else ("bin", "Add", s_, m_), e_, S_)
+    return None
+
+
+def chain_item(x):
+    """x = the item `Some(next(loopvar(init = into_iter(CHAIN)))).0` of a for loop over an iterator chain -> (CHAIN range, enumerated?)"""
+    if x[0] == "vfield" and x[2] == "0" and x[1][0] == "vdown" and x[1][2] == "Some":
+        c = x[1][1]
+        if is_call(c, "next") and c[2]:
+            lv = c[2][0]
+            if lv[0] == "loopvar" and lv[3] is not None and is_call(lv[3], "into_iter"):
+                it = lv[3][2][0]
+                r = chain_range(it)
+                if r is not None:
+                    return (r, contains(it, lambda t_: is_call(t_, "enumerate")))
     return None
 
 
@@ -447,15 +507,19 @@ def rule_cloner(ctx, R):
         # every returning path must have run both copy loops; a shortcut that skips them returns something
         # that is not a cell-for-cell copy (slot generations, free list, archetype generation, event logs)
         rets = []
+        # the copy loops of this clone: every loop header that occurs on some path (slot loop, dense loop(s))
+        headers = sorted({e[1] for p in ps for e in p.effects if e[0] == "loop"})
         for pi, p in enumerate(rets_all):
-            nloops = len([e for e in p.effects if e[0] == "loop"])
-            if nloops >= 2:
+            nloops = len({e[1] for e in p.effects if e[0] == "loop"})
+            if nloops >= max(2, len(headers)):
                 rets.append(p)
             else:
-                R.fail("C13-R2", key + "|shortcut#%d" % pi, "Clone::clone returns under %s after running %d of its 2 copy loops: the result (%s) is not a copy of the slot array / dense arrays of the source" % (
-                    describe_atoms(branch_atoms(p)), nloops, show(N(p.ret))[:160]), where_of(f), fn=f.key)
-        R.check(len(rets) == 1 and len(loops) == 2, "C13-R2", key + "|shape", "two copy loops and one exit",
-                "Clone::clone has %d fully copying returning paths and %d loop bodies; expected 1 and 2 (slot loop, dense loop)" % (len(rets), len(loops)), where_of(f), fn=f.key)
+                R.fail("C13-R2", key + "|shortcut#%d" % pi, "Clone::clone returns under %s after running %d of its %d copy loops: the result (%s) is not a copy of the slot array / dense arrays of the source" % (
+                    describe_atoms(branch_atoms(p)), nloops, max(2, len(headers)), show(N(p.ret))[:160]), where_of(f), fn=f.key)
+        # (how many loops the dense arrays are copied in is free -- one loop per row or one per array group; that every
+        # array is copied exactly once over its own extent is judged below per write and by the copy-set)
+        R.check(len(rets) == 1 and len(loops) >= 2 and len(loops) == len(headers), "C13-R2", key + "|shape", "copy loops and one exit",
+                "Clone::clone has %d fully copying returning paths and %d loop bodies over %d loops; expected one exit after all copy loops (a slot loop and at least one dense loop)" % (len(rets), len(loops), len(headers)), where_of(f), fn=f.key)
         if len(rets) != 1:
             continue
         rp = rets[0]
